@@ -48,7 +48,8 @@ func fileCases(c *lib.Ctx) []fileCase {
 		}
 		return []string{"", "sub/"}
 	}
-	one := func(units []string, kind int) {
+	rot := 0
+	one := func(units []string, kind int, lite bool) {
 		name := ""
 		for _, u := range units {
 			name += u
@@ -60,7 +61,12 @@ func fileCases(c *lib.Ctx) []fileCase {
 		for _, p := range prefixesOf(units) {
 			for _, st := range styles {
 				for ti, tm := range fileTemplates {
-					for _, dp := range dirparts(tm) {
+					dps := dirparts(tm)
+					if lite { // one of the two directory parts, alternating
+						rot++
+						dps = dps[rot%2 : rot%2+1]
+					}
+					for _, dp := range dps {
 						out = append(out, fileCase{Entries: entriesJSON([]fsEntry{e}), DirPart: dp, Prefix: elv.Bytes(p),
 							Style: st.style, Closed: st.closed, Tmpl: ti})
 					}
@@ -71,7 +77,7 @@ func fileCases(c *lib.Ctx) []fileCase {
 	// every name of one unit, as a file, a directory and an executable (quick tier: a seeded 40% of them)
 	for _, u := range nameUnits {
 		for kind := 0; kind < 3; kind++ {
-			one([]string{u}, kind)
+			one([]string{u}, kind, false)
 		}
 	}
 	if c.Quick() {
@@ -92,7 +98,7 @@ func fileCases(c *lib.Ctx) []fileCase {
 	out = nil
 	for _, u := range nameUnits {
 		for _, v := range nameUnits {
-			one([]string{u, v}, rng.Intn(3))
+			one([]string{u, v}, rng.Intn(3), true)
 		}
 	}
 	two, out = out, save
